@@ -1785,3 +1785,178 @@ Proof.
   destruct (Z.ltb_spec n 16); [replace (4 <=? n) with true by lia; cbn; now rewrite ?orb_true_r|].
   replace (16 <=? n) with true by lia. replace (n <? 32) with true by lia. cbn. now rewrite ?orb_true_r.
 Qed.
+
+(* ====================================================================== K. group registers with alternative widths
+   (after the repair of finding C11-F2: sub-registers above the selected width are cleared) *)
+Lemma insert_z_in x a l : In x (insert_z a l) <-> x = a \/ In x l.
+Proof.
+  induction l as [|h t IH]; cbn; [intuition|]. destruct (a <=? h); cbn; [intuition|]. rewrite IH. intuition.
+Qed.
+
+Lemma sort_z_in x l : In x (sort_z l) <-> In x l.
+Proof. induction l as [|h t IH]; cbn; [tauto|]. rewrite insert_z_in, IH. intuition. Qed.
+
+Lemma pick_alt_cases c l d : pick_alt c l d = d \/ (In (pick_alt c l d) l /\ c <= pick_alt c l d / 8).
+Proof.
+  induction l as [|a t IH]; cbn [pick_alt]; [now left|]. destruct (Z.leb_spec c (a / 8)).
+  - right. split; [now left|assumption].
+  - destruct IH as [IH|(I1 & I2)]; [now left|right]. split; [now right|assumption].
+Qed.
+
+Lemma alt_width_ok W alts v : in_range W v -> Forall (fun a => 0 < a) alts ->
+  exists aw, alt_width W alts v = Ok aw /\ (aw = W \/ In aw alts) /\ v < 2 ^ aw.
+Proof.
+  intros (Hv & Hb) Ha. destruct alts as [|a0 t]; [exists W; cbn; repeat split; (now left) || assumption|].
+  unfold alt_width. rewrite bytes_cnt_total by assumption. cbn [bind].
+  destruct (width_spec_fits v false Hv) as (Hf & Hp).
+  eexists. split; [reflexivity|].
+  destruct (pick_alt_cases (width_spec v false) (sort_z (a0 :: t)) W) as [->|(I1 & I2)]; [split; [now left|assumption]|].
+  apply (proj1 (sort_z_in _ _)) in I1. split; [right; exact I1|].
+  eapply Forall_forall in Ha; [|exact I1].
+  eapply Z.lt_le_trans; [exact Hf|]. apply Z.pow_le_mono_r; lia.
+Qed.
+
+Definition zeroed (raw : bool) (l : list sreg) : list sreg :=
+  map (fun s => set_value s (view (s_reverse s) raw (s_width s) 0)) l.
+
+Lemma zero_in_range W : 0 < W -> in_range W 0.
+Proof. intros H. split; [lia|]. apply Z.pow_pos_nonneg; lia. Qed.
+
+Lemma subs_zero_ok l raw : Forall wf_sreg l -> subs_zero l raw = Ok (zeroed raw l).
+Proof.
+  induction 1 as [|s t Hs Ht IH]; cbn [subs_zero zeroed map]; [reflexivity|].
+  pose proof Hs as (P1 & _). rewrite sreg_set_ok by (try assumption; now apply zero_in_range). cbn [bind].
+  rewrite IH. reflexivity.
+Qed.
+
+Lemma zeroed_wf l raw sw : Forall wf_sreg l -> Forall (fun s => s_width s = sw) l ->
+  Forall wf_sreg (zeroed raw l) /\ Forall (fun s => s_width s = sw) (zeroed raw l) /\
+  sviews raw (zeroed raw l) = map (fun _ => 0) l.
+Proof.
+  intros H Hw. induction H as [|s t Hs Ht IH]; cbn [zeroed map sviews]; [repeat split; constructor|].
+  inversion Hw as [|? ? Hw0 Hwt]; subst. destruct (IH Hwt) as (I1 & I2 & I3). pose proof Hs as (P1 & P2 & _).
+  assert (Hz := zero_in_range _ P1).
+  split; [constructor; [apply wf_set_value; [assumption|now apply view_range]|assumption]|].
+  split; [constructor; [reflexivity|assumption]|].
+  f_equal; [|exact I3]. unfold sview. cbn. now apply view_involutive.
+Qed.
+
+Lemma cbit_app l1 l2 idx W sw rev n :
+  cbit (l1 ++ l2) idx W sw rev n = cbit l1 idx W sw rev n || cbit l2 (idx + Z.of_nat (length l1)) W sw rev n.
+Proof.
+  revert idx. induction l1 as [|v t IH]; intros idx; cbn [app cbit length].
+  - now replace (idx + Z.of_nat 0) with idx by lia.
+  - rewrite IH. replace (idx + 1 + Z.of_nat (length t)) with (idx + Z.of_nat (S (length t))) by lia. now rewrite orb_assoc.
+Qed.
+
+Lemma cbit_zeros {A} (l : list A) idx W sw rev n : cbit (map (fun _ => 0) l) idx W sw rev n = false.
+Proof. revert idx. induction l as [|x t IH]; intros idx; cbn [map cbit]; [reflexivity|]. now rewrite Z.testbit_0_l, IH. Qed.
+
+Lemma slices_norev k : forall idx W1 W2 sw V, slices k idx W1 sw false V = slices k idx W2 sw false V.
+Proof. induction k as [|k IH]; intros; cbn [slices]; [reflexivity|]. f_equal. apply IH. Qed.
+
+(* a non-reversed group in normal sub-register order whose alternative widths are multiples of the sub-register width *)
+Definition wf_alt_group (r : reg) : Prop :=
+  let b := r_base r in
+  0 < s_width b /\ s_width b mod 8 = 0 /\ s_reverse b = false /\ r_rev_sub r = false /\
+  Forall wf_sreg (r_subs r) /\
+  exists s0 t, r_subs r = s0 :: t /\ Forall (fun s => s_width s = s_width s0) (r_subs r) /\
+    Z.of_nat (length (r_subs r)) * s_width s0 = s_width b /\
+    Forall (fun a => 0 < a <= s_width b /\ a mod s_width s0 = 0) (s_alt b).
+
+Lemma alt_group_get_set_lemma big r v raw : wf_alt_group r -> in_range (s_width (r_base r)) v ->
+  exists r' aw, alt_width (s_width (r_base r)) (s_alt (r_base r)) v = Ok aw /\
+    reg_set r v raw = Ok r' /\ reg_get big r' raw = Ok v /\ wf_alt_group r' /\
+    length (r_subs r') = length (r_subs r) /\
+    (* every sub-register above the selected width reads 0 *)
+    forall j s s0, nth_error (r_subs r') j = Some s -> nth_error (r_subs r) 0 = Some s0 ->
+                   aw <= Z.of_nat j * s_width s0 -> sreg_get big s raw = Ok 0.
+Proof.
+  intros (B1 & B2 & Brev & Brs & Hsubs & s0 & t & Es & Hw & Hlen & Halts) HV. cbv zeta in *.
+  remember (s_width (r_base r)) as W eqn:EW. remember (s_width s0) as sw eqn:Esw.
+  assert (Hsw : 0 < sw) by (rewrite Es in Hsubs; inversion Hsubs as [|? ? (P & _) _]; rewrite Esw; exact P).
+  destruct (alt_width_ok W (s_alt (r_base r)) v HV) as (aw & Ea & Hin & Hlt).
+  { eapply Forall_impl; [|exact Halts]. cbn. intros; lia. }
+  assert (Haw : 0 < aw <= W /\ aw mod sw = 0).
+  { destruct Hin as [->|Hin]; [split; [lia|]; rewrite <- Hlen; apply Z.mod_mul; lia|].
+    eapply Forall_forall in Halts; [|exact Hin]. cbn in Halts. lia. }
+  destruct Haw as (Haw1 & Haw2).
+  set (n := Z.to_nat (aw / sw)).
+  assert (Hn : Z.of_nat n * sw = aw) by (unfold n; lia).
+  assert (HnL : (n <= length (r_subs r))%nat) by nia.
+  pose proof (firstn_skipn n (r_subs r)) as Hsplit.
+  assert (HF : Forall wf_sreg (firstn n (r_subs r)) /\ Forall wf_sreg (skipn n (r_subs r))) by (apply Forall_app; now rewrite Hsplit).
+  assert (HG : Forall (fun s => s_width s = sw) (firstn n (r_subs r)) /\ Forall (fun s => s_width s = sw) (skipn n (r_subs r)))
+    by (apply Forall_app; now rewrite Hsplit).
+  destruct HF as (HF1 & HF2). destruct HG as (HG1 & HG2).
+  set (A := subs_written (firstn n (r_subs r)) 1 aw sw false v raw).
+  destruct (subs_written_wf (firstn n (r_subs r)) 1 aw sw false v raw HF1 HG1) as (A1 & A2 & A3).
+  destruct (zeroed_wf (skipn n (r_subs r)) raw sw HF2 HG2) as (Z1 & Z2 & Z3).
+  assert (Hset : reg_set r v raw = Ok (set_subs_of r (A ++ zeroed raw (skipn n (r_subs r))))).
+  { unfold reg_set, set_common. rewrite <- EW. rewrite py_reg_check_spec, (out_of_range_false _ _ HV) by lia. cbn [bind].
+    rewrite Ea. cbn [bind]. rewrite Brev, andb_false_r. cbn [bind]. rewrite Es. rewrite <- Esw. rewrite <- Es. fold n.
+    rewrite Brs, subs_set_ok by assumption. cbn [bind]. rewrite subs_zero_ok by assumption. reflexivity. }
+  set (r' := set_subs_of r (A ++ zeroed raw (skipn n (r_subs r)))).
+  assert (HlenA : length A = n) by (unfold A; rewrite A3, firstn_length; lia).
+  assert (Hlen' : length (r_subs r') = length (r_subs r)).
+  { unfold r'. cbn [r_subs set_subs_of]. rewrite app_length, HlenA. unfold zeroed. rewrite map_length, skipn_length. lia. }
+  assert (Hwf' : Forall wf_sreg (r_subs r')) by (unfold r'; cbn [r_subs set_subs_of]; apply Forall_app; split; assumption).
+  assert (Hw' : Forall (fun s => s_width s = sw) (r_subs r')) by (unfold r'; cbn [r_subs set_subs_of]; apply Forall_app; split; assumption).
+  assert (Hne : exists s0' t', r_subs r' = s0' :: t').
+  { destruct (r_subs r') as [|a b] eqn:E'; [rewrite Es in Hlen'; discriminate|eauto]. }
+  destruct Hne as (s0' & t' & Es').
+  assert (Ew0 : s_width s0' = sw) by (rewrite Es' in Hw'; now inversion Hw').
+  exists r', aw. split; [exact Ea|]. split; [exact Hset|].
+  assert (Hget : reg_get big r' raw = Ok v).
+  { unfold reg_get, reg_raw_value. rewrite Es'. rewrite <- Es'. rewrite subs_get_ok by assumption. cbn [bind].
+    assert (Hb : r_base r' = r_base r) by reflexivity. assert (Hr : r_rev_sub r' = r_rev_sub r) by reflexivity.
+    rewrite Hb, Hr, Brs, Ew0. rewrite <- EW.
+    assert (HC : concat (sviews raw (r_subs r')) 1 W sw false 0 = v).
+    { unfold r'. cbn [r_subs set_subs_of]. unfold sviews. rewrite map_app. fold (sviews raw A). fold (sviews raw (zeroed raw (skipn n (r_subs r)))).
+      unfold A. rewrite sviews_written by assumption. rewrite Z3, (slices_norev _ 1 aw W).
+      apply Z.bits_inj'. intros m Hm. rewrite testbit_concat, Z.bits_0, cbit_app, cbit_zeros, orb_false_r by assumption. cbn [orb].
+      rewrite cbit_slices by (try lia; discriminate). unfold window.
+      rewrite firstn_length, Nat.min_l by assumption. replace (1 - 1 + Z.of_nat n) with (Z.of_nat n) by lia. rewrite Hn.
+      destruct (Z.ltb_spec m aw).
+      - replace (((1 - 1) * sw <=? m)) with true by lia. now rewrite andb_true_r.
+      - rewrite andb_false_r, andb_false_r. symmetry. apply small_bits with aw; [destruct HV; lia|assumption]. }
+    rewrite HC. unfold get_common. rewrite Ea. cbn [bind]. now rewrite Brev, andb_false_r. }
+  split; [exact Hget|]. split.
+  { unfold wf_alt_group. cbv zeta. change (r_base r') with (r_base r). change (r_rev_sub r') with (r_rev_sub r). rewrite <- EW.
+    split; [assumption|]. split; [assumption|]. split; [assumption|]. split; [assumption|]. split; [assumption|].
+    exists s0', t'. rewrite Ew0. split; [exact Es'|]. split; [assumption|]. rewrite Hlen'. split; assumption. }
+  split; [exact Hlen'|].
+  intros j s s00 Hj H0 Hge. rewrite Es in H0. cbn in H0. injection H0 as <-. rewrite <- Esw in Hge.
+  assert (HjA : (n <= j)%nat) by nia.
+  unfold r' in Hj. cbn [r_subs set_subs_of] in Hj.
+  rewrite nth_error_app2 in Hj by lia. unfold zeroed in Hj. rewrite nth_error_map in Hj.
+  destruct (nth_error (skipn n (r_subs r)) (j - length A)) as [s1|] eqn:E1; [|discriminate]. cbn in Hj. injection Hj as <-.
+  assert (Hs1 : wf_sreg s1) by (eapply Forall_forall in HF2; [exact HF2|eapply nth_error_In; eassumption]).
+  pose proof Hs1 as (P1 & P2 & _). assert (Hz := zero_in_range _ P1).
+  rewrite sreg_get_ok by (apply wf_set_value; [assumption|now apply view_range]). cbn. now rewrite view_involutive.
+Qed.
+
+(* the layout of finding C11-F2, now repaired *)
+Example ex_alt_group_wf : wf_alt_group (ex_group false false [256]).
+Proof.
+  unfold wf_alt_group. cbv zeta. cbn [ex_group r_base r_subs r_rev_sub s_width s_reverse s_alt].
+  split; [lia|]. split; [reflexivity|]. split; [reflexivity|]. split; [reflexivity|]. split.
+  - apply Forall_forall. intros s Hs. apply wf_sreg_b_sound.
+    assert (H : forallb (wf_sreg_b false) ex_subs = true) by (vm_compute; reflexivity). rewrite forallb_forall in H. now apply H.
+  - eexists. eexists. split; [reflexivity|]. split; [|split; [vm_compute; reflexivity|]].
+    + apply Forall_forall. intros s Hs.
+      assert (H : forallb (fun s => s_width s =? 32) ex_subs = true) by (vm_compute; reflexivity). rewrite forallb_forall in H.
+      specialize (H s Hs). cbn. lia.
+    + constructor; [|constructor]. cbn. split; [lia|reflexivity].
+Qed.
+
+Lemma alt_group_step_lemma init g i r v raw : nth_error (g_regs g) i = Some r -> wf_alt_group r -> in_range (s_width (r_base r)) v ->
+  exists g' r', step init g (OSetReg (Top i) (VInt v) raw) = (g', VList []) /\ nth_error (g_regs g') i = Some r' /\
+                wf_alt_group r' /\ t_get g' (Top i) raw = Ok v.
+Proof.
+  intros E Hr Hv. destruct (alt_group_get_set_lemma (g_big g) r v raw Hr Hv) as (r' & aw & _ & S1 & S2 & S3 & _).
+  assert (Hi : (i < length (g_regs g))%nat) by (apply nth_error_Some; congruence).
+  exists (set_regs g (list_set (g_regs g) i r')), r'. cbn [step to_int bind t_set]. rewrite E, S1. cbn [bind vunit].
+  split; [reflexivity|]. cbn [g_regs set_regs t_get g_big]. rewrite nth_error_list_set_same by assumption.
+  split; [reflexivity|]. split; assumption.
+Qed.
